@@ -23,7 +23,7 @@ def sh(cmd, cwd=None, env=None, timeout=900):
 
 
 def run_check(cid, repo, tier='quick'):
-    env = dict(os.environ, VERIF_REPO=repo, VERIF_TIER=tier)
+    env = dict(os.environ, VERIF_REPO=repo, VERIF_TIER=tier, VERIF_STOP_ON_VIOLATION='1')
     rc, out = sh('%s/check %s --tier %s' % (V, cid, tier), cwd=V, env=env, timeout=3600)
     whats = sorted(set(re.findall(r'^  what: (.*)$', out, re.M)))[:4]
     return rc, whats, [l for l in out.splitlines() if l.startswith(('INCONCLUSIVE', cid + ':'))][-1:]
